@@ -252,7 +252,15 @@ func (d *SDef) describe(F []string) IntroD {
 	for _, dd := range d.Dirs {
 		locs := append([]string{}, dd.Locs...)
 		sort.Strings(locs)
-		out.Directives = append(out.Directives, DirectiveD{Name: dd.Name, Desc: optStr(dd.Desc), Locations: locs, Args: d.describeInputs(dd.Args)})
+		// a directive argument whose type's required features the request does not have is treated
+		// as undefined (fix C13/05, DirectiveDefinition.VisibleArguments)
+		var args []InputVal
+		for _, a := range dd.Args {
+			if subset(d.featOf(a.Type.N), F) {
+				args = append(args, a)
+			}
+		}
+		out.Directives = append(out.Directives, DirectiveD{Name: dd.Name, Desc: optStr(dd.Desc), Locations: locs, Args: d.describeInputs(args)})
 	}
 	sort.SliceStable(out.Directives, func(i, j int) bool { return out.Directives[i].Name < out.Directives[j].Name })
 	return out
